@@ -20,7 +20,7 @@ import os
 
 import numpy as np
 
-from .. import core, parsers, tiltmeta as tm
+from .. import argguard, core, parsers, tiltmeta as tm
 
 PROPS = ["C17_MdocRoundTrip", "C17_SortOnlyReorders", "C17_RemoveOnlyFlags", "C17_WriteOmitsExactlyRemoved"]
 INVS = ["TypeOK", "C17_ValuesRoundTrip"]
@@ -33,6 +33,30 @@ def cfg(depth, mode, docs="MCDocs"):
     if mode == "hist":
         lines += ["CONSTRAINT EmitHist"]
     return "\n".join(lines) + "\n"
+
+
+class Watch:
+    """Registers the caller-owned objects (arrays, lists, DataFrames) handed to the library in one case; after the calls
+    every one of them must be what it was (argguard)."""
+
+    def __init__(self):
+        self.guards = []
+
+    def __call__(self, obj, name="argument"):
+        self.guards.append(argguard.Guard(**{name: obj}))
+        return obj
+
+    def changed(self):
+        for g in self.guards:
+            why = g.changed()
+            if why:
+                return why
+        return None
+
+
+def as_path(p, on):
+    import pathlib
+    return pathlib.Path(p) if on else p
 
 
 # ---- stepping a live Mdoc through a history -----------------------------------------------------------------------
@@ -53,41 +77,48 @@ class Live:
 
     def start(self, doc, layout):
         self.path = self.newpath()
-        with open(self.path, "w", newline="") as fh:
+        with open(self.path, "w", newline="", encoding="utf-8") as fh:
             fh.write(tm.render_doc(doc, layout))
+        tm.restyle(self.path, (layout // 7) % 4)               # CRLF line ends / trailing blank lines
+        self.use_path = bool((layout // 5) % 2)                 # file names as pathlib.Path instead of str
+        self.watch = Watch()
 
     def apply(self, op, variant):
         from cryocat import mdoc
         name = op["name"]
         with contextlib.redirect_stdout(io.StringIO()):
+            up = getattr(self, "use_path", False)
             if name in ("read", "reload"):
-                self.m = mdoc.Mdoc(self.path)
+                self.m = mdoc.Mdoc(as_path(self.path, up))
             elif name == "sort":
                 self.m.sort_by_tilt(reset_z_value=op["reset"])
             elif name == "remove":
                 idx = sorted(op["idx"], reverse=bool(variant & 1))
+                if variant & 4:
+                    idx = idx + idx[:1]                         # an index named twice is still one image
                 if op.get("shared"):
-                    self.m.remove_images(self.shared_array(op["idx"]), kept_only=op["kept_only"])
+                    self.m.remove_images(self.watch(self.shared_array(op["idx"]), "indices"), kept_only=op["kept_only"])
                 else:
-                    self.m.remove_images(np.array(idx) if variant & 2 else idx, kept_only=op["kept_only"])
+                    self.m.remove_images(self.watch(np.array(idx) if variant & 2 else idx, "indices"), kept_only=op["kept_only"])
             elif name == "keep":
                 self.m.keep_images(sorted(op["labels"]))
             elif name == "reset":
                 self.m.reset_images()
             elif name == "write":
                 out = self.newpath()
-                self.m.write(out, overwrite=bool(variant & 1), removed=op["removed"])
+                self.m.write(as_path(out, up), overwrite=bool(variant & 1), removed=op["removed"])
                 self.path = out
             elif name in ("fn_remove", "fn_remove_keep"):
                 out = self.newpath() if name == "fn_remove" else None
                 idx = sorted(op["idx"])
                 arg = self.shared_array(op["idx"]) if op.get("shared") else (np.array(idx) if variant & 1 else idx)
-                self.m = mdoc.remove_images(self.path, arg, numbered_from_1=(op["base"] == 1), output_file=out)
+                self.watch(arg, "idx_to_remove")
+                self.m = mdoc.remove_images(as_path(self.path, up), arg, numbered_from_1=(op["base"] == 1), output_file=out)
                 if out is not None:
                     self.path = out
             elif name == "fn_sort":
                 out = self.newpath()
-                self.m = mdoc.sort_mdoc_by_tilt_angles(self.path, reset_z_value=op["reset"], output_file=out)
+                self.m = mdoc.sort_mdoc_by_tilt_angles(as_path(self.path, up), reset_z_value=op["reset"], output_file=out)
                 self.path = out
             else:
                 raise core.MachineryError("unknown mdoc operation %r" % (op,))
@@ -101,7 +132,7 @@ class Live:
         return self.shared[key]
 
     def observe(self):
-        with open(self.path) as fh:
+        with open(self.path, encoding="utf-8") as fh:
             disk = tm.parse_doc(fh.read())
         return tm.project_mdoc(self.m), disk
 
@@ -155,6 +186,10 @@ def run_history(ctx, hist, variant, kind):
         _, err = core.call_guarded(live.apply, op, variant + i)
         if err is not None:
             ctx.fail("call_raises", "step %d %s: %s" % (i, op, err), case, sig)
+            break
+        why = live.watch.changed()
+        if why:
+            ctx.fail("C17_ArgumentsUnchanged", "step %d %s changed its argument (%s)" % (i, op, why), case, sig)
             break
         got_m, got_d = live.observe()
         dm = first_diff(got_m, st["post"], "mdoc")
@@ -249,8 +284,10 @@ def rand_tilt(rng, used):
     raise core.MachineryError("could not draw a fresh tilt angle")
 
 
-def gen_mdoc_case(rng, idx, nmax):
+def gen_mdoc_case(rng, idx, nmax, nforce=0):
     n = rng.choice([1, 2, 3, rng.randint(1, nmax), rng.randint(1, nmax), nmax])
+    if nforce:
+        n = nforce                                             # every image count 1..12 in every run
     ncol = rng.randint(1, 25)
     keys = rng.sample(KEYS, min(ncol, len(KEYS)))
     tpos = rng.randrange(len(keys) + 1)
@@ -283,9 +320,9 @@ def gen_mdoc_case(rng, idx, nmax):
             # without / with output file (same mdoc again, then the shortened one) and the Mdoc method
             b = len(disk)
             size = rng.choice([1, 1, 2])
-            if b <= 3 * size:
+            if b <= 3 * size + 1:
                 continue
-            I = sorted(rng.sample(range(1, b - 2 * size + 1), size))
+            I = sorted(rng.sample(range(1, b - 2 * size), size))
             for step in rng.choice([["keep", "keep"], ["keep", "out"], ["out", "out"], ["keep", "out", "keep"],
                                     ["out", "keep", "method"], ["keep", "method"], ["keep", "keep", "out"]]):
                 if step == "method":
@@ -367,6 +404,12 @@ def run_random_mdocs(ctx, cases, corrupt=None):
                 ctx.fail("call_raises", "step %d %s: %s" % (i, op, err), case, {"op": "mdoc." + op["name"], "layer": "L3"})
                 failed = True
                 break
+            why = live.watch.changed()
+            if why:
+                ctx.fail("C17_ArgumentsUnchanged", "step %d %s changed its argument (%s)" % (i, op, why), case,
+                         {"op": "mdoc." + op["name"], "layer": "L3"})
+                failed = True
+                break
             post, disk = live.observe()
             steps.append({"op": op, "post": post, "disk": disk})
         ctx.ran(case)
@@ -437,6 +480,12 @@ def gen_dose(rng):
 
 
 def gen_table_case(rng, idx):
+    case = gen_table_case0(rng, idx)
+    case.setdefault("style", rng.randrange(16))
+    return case
+
+
+def gen_table_case0(rng, idx):
     r = rng.random()
     n = rng.choice([1, 2, rng.randint(1, 80), rng.randint(1, 80), 80])
     if r < 0.12:
@@ -486,7 +535,7 @@ def gen_table_case(rng, idx):
             "ctf": with_ctf, "dose": with_dose, "tlt_input": rng.choice(["file", "array"]) if mode == "single" else "file",
             "dims_input": rng.choice(["same"] if same_dims else ["table", "table_file", "per_tomo_files"]),
             "z_input": rng.choice(["scalar"] if same_z else ["table", "table_file", "frame", "per_tomo_files"]),
-            "shuffle": rng.randrange(1000), "variant": rng.randrange(8)}
+            "shuffle": rng.randrange(1000), "variant": rng.randrange(8), "style": rng.randrange(16)}
 
 
 def sweep_cases(rng, first_id, nhi):
@@ -543,6 +592,8 @@ def sweep_cases(rng, first_id, nhi):
                         "shuffle": rng.randrange(1000), "variant": k})
             idx += 1
             k += 1
+    for k2, c in enumerate(out):
+        c["style"] = k2 % 16                                   # line ends / trailing blanks / Path / float32 rotate
     for tomo_input in ("array", "file"):
         ids = sorted(rng.sample(range(1, 999), 3))
         out.append({"kind": "wedge", "id": idx, "what": "em", "tomo_input": tomo_input, "consts": gen_consts(rng), "ctf": "none",
@@ -551,6 +602,15 @@ def sweep_cases(rng, first_id, nhi):
                                "zshift": 0} for t in ids]})
         idx += 1
     return out
+
+
+GCTF_NAMES = ["unpadded", "padded", "reversed", "random", "absent"]
+
+
+def gctf_style(case, salt=0):
+    """(names style, optional-column bits) of the gctf files of a case - derived from its id so that replays agree."""
+    k = int(case.get("id", 0)) + salt
+    return GCTF_NAMES[k % len(GCTF_NAMES)], (k // 5) % 8
 
 
 def mdoc_text(imgs, with_dose=True):
@@ -581,7 +641,10 @@ def wedge_rows_of_frame(df):
             if name not in df.columns:
                 return -1
             v = tm.sround(r[name], scale)
-            return -99999999 if v is None else v
+            if v is None:
+                # an unset (all-NaN) defocus / exposure column is the same as an absent one
+                return -1 if name in ("defocus", "exposure") and df[name].isna().all() else -99999999
+            return v
         rows.append({"tomo": g("tomo_num", 1), "px": g("pixelsize", 1000),
                      "dim": [g("tomo_x", 1), g("tomo_y", 1), g("tomo_z", 1)], "zshift": g("z_shift", 10),
                      "tilt": g("tilt_angle", 100), "mean2": g("defocus", 200000), "dose": g("exposure", 100),
@@ -611,6 +674,15 @@ def exec_table_case(case, wd):
     os.makedirs(wd, exist_ok=True)
     what = case["what"]
     out = []
+    W = Watch()
+    style = case.get("style", 0)        # bit 0 CRLF, bit 1 trailing blank lines, bit 2 pathlib.Path where a path is documented
+    # as accepted (STAR / ctffind4 readers, output files), bit 3 single-precision arrays
+    up = bool(style & 4)
+    fdt = np.float32 if style & 8 else float
+
+    def styled(path):
+        tm.restyle(path, style)
+        return path
     with contextlib.redirect_stdout(io.StringIO()):
         if case["kind"] == "loader":
             if what == "tlt":
@@ -618,33 +690,33 @@ def exec_table_case(case, wd):
                 if case["input"] == "file":
                     path = os.path.join(wd, "a.tlt")
                     tm.write_values(path, vals, 100, 2, pad="  ")
-                    got = ioutils.tlt_load(path, sort_angles=case["sort"])
+                    got = ioutils.tlt_load(styled(path), sort_angles=case["sort"])
                 elif case["input"] == "mdoc":
                     path = os.path.join(wd, "a.mdoc")
                     with open(path, "w") as fh:
                         fh.write(mdoc_text([{"tilt": v} for v in vals], with_dose=False))
-                    got = ioutils.tlt_load(path, sort_angles=case["sort"])
+                    got = ioutils.tlt_load(styled(path), sort_angles=case["sort"])
                 elif case["input"] == "array":
-                    got = ioutils.tlt_load(np.array(vals, dtype=float) / 100.0, sort_angles=case["sort"])
+                    got = ioutils.tlt_load(W((np.array(vals, dtype=float) / 100.0).astype(fdt), "input_tlt"), sort_angles=case["sort"])
                 else:
-                    got = ioutils.tlt_load([v / 100.0 for v in vals], sort_angles=case["sort"])
+                    got = ioutils.tlt_load(W([v / 100.0 for v in vals], "input_tlt"), sort_angles=case["sort"])
                 out.append(("tlt", ints(got, 100)))
             elif what == "dose":
                 vals = case["vals"]
                 if case["input"] == "file":
                     path = os.path.join(wd, "dose.txt")
                     tm.write_values(path, vals, 100, 2)
-                    got = ioutils.total_dose_load(path)
+                    got = ioutils.total_dose_load(styled(path))
                 elif case["input"] == "array":
-                    got = ioutils.total_dose_load(np.array(vals, dtype=float) / 100.0)
+                    got = ioutils.total_dose_load(W((np.array(vals, dtype=float) / 100.0).astype(fdt), "input_dose"))
                 else:
-                    got = ioutils.total_dose_load([v / 100.0 for v in vals])
+                    got = ioutils.total_dose_load(W([v / 100.0 for v in vals], "input_dose"))
                 out.append(("dose", ints(got, 100)))
             elif what == "mdocdose":
                 path = os.path.join(wd, "d.mdoc")
                 with open(path, "w") as fh:
                     fh.write(mdoc_text(case["imgs"]))
-                got = ioutils.total_dose_load(path, sort_mdoc=case["sort"])
+                got = ioutils.total_dose_load(styled(path), sort_mdoc=case["sort"])
                 out.append(("mdocdose", ints(got, 100)))
             else:
                 rows = case["rows"]
@@ -655,19 +727,24 @@ def exec_table_case(case, wd):
                         from .. import motlutil
                         arr = motlutil.vary_index(pd.DataFrame(arr, columns=["defocus1", "defocus2", "astigmatism",
                                                                              "phase_shift", "defocus_mean"]), case["id"])
-                    df = ioutils.defocus_load(arr)
+                    df = ioutils.defocus_load(W(arr, "input_data"))
                 elif case["fmt"] == "ctffind4":
                     path = os.path.join(wd, "ctf.txt")
                     tm.write_ctffind4(path, rows)
-                    df = ioutils.ctffind4_read(path) if case["via"] == "read" else ioutils.defocus_load(path, "ctffind4")
+                    styled(path)
+                    df = ioutils.ctffind4_read(as_path(path, up)) if case["via"] == "read" else ioutils.defocus_load(path, "ctffind4")
                 else:
                     path = os.path.join(wd, "ctf.star")
-                    tm.write_gctf(path, rows, case["fmt"] == "gctf")
-                    df = ioutils.gctf_read(path) if case["via"] == "read" else ioutils.defocus_load(path, "gctf")
+                    tm.write_gctf(path, rows, case["fmt"] == "gctf", *gctf_style(case))
+                    styled(path)
+                    df = ioutils.gctf_read(as_path(path, up)) if case["via"] == "read" else ioutils.defocus_load(path, "gctf")
                 got = [{"d1": tm.sround(r["defocus1"], 1e5), "d2": tm.sround(r["defocus2"], 1e5),
                         "mean2": tm.sround(r["defocus_mean"], 2e5), "ast": tm.sround(r["astigmatism"], 100),
                         "ps": tm.sround(r["phase_shift"], 1000)} for _, r in df.iterrows()]
                 out.append(("defocus", got))
+            why = W.changed()
+            if why:
+                out.append(("ARG", why))
             return out
         # ---- wedge lists
         tomos, C = case["tomos"], case["consts"]
@@ -681,42 +758,52 @@ def exec_table_case(case, wd):
                 if case["ctf"] == "ctffind4":
                     tm.write_ctffind4(os.path.join(wd, "%03d_ctf.txt" % t["id"]), t["ctf"])
                 else:
-                    tm.write_gctf(os.path.join(wd, "%03d_ctf.star" % t["id"]), t["ctf"], case["ctf"] != "gctf_nophase")
+                    tm.write_gctf(os.path.join(wd, "%03d_ctf.star" % t["id"]), t["ctf"], case["ctf"] != "gctf_nophase", *gctf_style(case, t["id"]))
             with open(os.path.join(wd, "%03d_dim.txt" % t["id"]), "w") as fh:
                 fh.write("%d %d %d\n" % tuple(t["dim"]))
             with open(os.path.join(wd, "%03d_zshift.txt" % t["id"]), "w") as fh:
                 fh.write("%s\n" % tm.dec(t["zshift"], 10, 1))
+            for fn in ("%03d.tlt", "%04d_dose.txt", "%03d_ctf.txt", "%03d_ctf.star", "%03d_dim.txt", "%03d_zshift.txt"):
+                if os.path.exists(os.path.join(wd, fn % t["id"])):
+                    styled(os.path.join(wd, fn % t["id"]))
         ids = [t["id"] for t in tomos]
         if case["tomo_input"] == "file":
             tomo_list = os.path.join(wd, "tomo_list.txt")
             with open(tomo_list, "w") as fh:
                 for i in ids:
                     fh.write("%03d\n" % i)
+            styled(tomo_list)
         else:
-            tomo_list = np.array(ids)
+            tomo_list = W(np.array(ids), "tomo_list")
         tlt_fmt = os.path.join(wd, "$xxx.tlt")
         if what == "single":
             t = tomos[0]
-            tlt = os.path.join(wd, "%03d.tlt" % t["id"]) if case["tlt_input"] == "file" else np.array(t["tilts"], dtype=float) / 100.0
+            tlt = os.path.join(wd, "%03d.tlt" % t["id"]) if case["tlt_input"] == "file" else W((np.array(t["tilts"], dtype=float) / 100.0).astype(fdt), "tlt_file")
             ctf_file, ctf_type = None, "gctf"
             if t["ctf"]:
                 if case["ctf"] == "ctffind4":
                     ctf_file, ctf_type = os.path.join(wd, "%03d_ctf.txt" % t["id"]), "ctffind4"
                 elif case["ctf"] == "array":
-                    ctf_file = np.array([[r["u"] / 1e5, r["v"] / 1e5, r["ang"] / 100.0, r["ps"] / 1000.0,
-                                          (r["u"] / 1e5 + r["v"] / 1e5) / 2.0] for r in t["ctf"]])
+                    ctf_file = W(np.array([[r["u"] / 1e5, r["v"] / 1e5, r["ang"] / 100.0, r["ps"] / 1000.0,
+                                            (r["u"] / 1e5 + r["v"] / 1e5) / 2.0] for r in t["ctf"]]), "ctf_file")
                 else:
                     ctf_file = os.path.join(wd, "%03d_ctf.star" % t["id"])
             dose = None
             if t["dose"]:
-                dose = os.path.join(wd, "%04d_dose.txt" % t["id"]) if case["dose"] == "file" else np.array(t["dose"], dtype=float) / 100.0
-            dim = [list(t["dim"]), np.array(t["dim"], dtype=float), os.path.join(wd, "%03d_dim.txt" % t["id"])][case["variant"] % 3]
+                dose = os.path.join(wd, "%04d_dose.txt" % t["id"]) if case["dose"] == "file" else W((np.array(t["dose"], dtype=float) / 100.0).astype(fdt), "dose_file")
+            dim = [W(list(t["dim"]), "tomo_dim"), W(np.array(t["dim"], dtype=[float, int][case["variant"] % 2]), "tomo_dim"),
+                   os.path.join(wd, "%03d_dim.txt" % t["id"])][case["variant"] % 3]
             zsh = [t["zshift"] / 10.0, os.path.join(wd, "%03d_zshift.txt" % t["id"])][(case["variant"] // 3) % 2]
             star = os.path.join(wd, "single.star")
+            # drop_nan_columns=False keeps the unset defocus / exposure columns (all NaN): the same table
             df = wedgeutils.create_wedge_list_sg(t["id"], dim, px, tlt, z_shift=zsh, ctf_file=ctf_file, ctf_file_type=ctf_type,
-                                                 dose_file=dose, voltage=volt, amp_contrast=amp, cs=cs, output_file=star)
+                                                 dose_file=dose, voltage=volt, amp_contrast=amp, cs=cs,
+                                                 output_file=as_path(star, up), drop_nan_columns=not (case["variant"] & 4))
             out.append(("sg", wedge_rows_of_frame(df)))
             out.append(("sg", wedge_rows_of_frame(frame_of_star(star))))
+            why = W.changed()
+            if why:
+                out.append(("ARG", why))
             return out
         if what == "em":
             emf = os.path.join(wd, "wedge.em")
@@ -724,6 +811,9 @@ def exec_table_case(case, wd):
             out.append(("em", [{"tomo": tm.sround(r["tomo_num"], 1), "lo": tm.sround(r["min_angle"], 100),
                                 "hi": tm.sround(r["max_angle"], 100)} for _, r in df.iterrows()]))
             out.append(("em", em_rows(emf)))
+            why = W.changed()
+            if why:
+                out.append(("ARG", why))
             return out
         # batch (also the first half of sg2em)
         kw = {}
@@ -736,35 +826,45 @@ def exec_table_case(case, wd):
         order = list(range(len(tomos)))
         sh.shuffle(order)                                       # tables are keyed by tomogram id, not by row position
         if case["dims_input"] == "same":
-            kw.update(tomo_dim=[list(tomos[0]["dim"]), np.array(tomos[0]["dim"], dtype=float)][case["variant"] % 2])
+            kw.update(tomo_dim=W([list(tomos[0]["dim"]), np.array(tomos[0]["dim"], dtype=float)][case["variant"] % 2], "tomo_dim"))
         elif case["dims_input"] == "table":
-            kw.update(tomo_dim=np.array([[tomos[k]["id"]] + tomos[k]["dim"] for k in order], dtype=float))
+            kw.update(tomo_dim=W(np.array([[tomos[k]["id"]] + tomos[k]["dim"] for k in order], dtype=float), "tomo_dim"))
         elif case["dims_input"] == "table_file":
             path = os.path.join(wd, "dims.txt")
             with open(path, "w") as fh:
                 for k in order:
                     fh.write("%d %d %d %d\n" % tuple([tomos[k]["id"]] + tomos[k]["dim"]))
-            kw.update(tomo_dim=path)
+            kw.update(tomo_dim=styled(path))
         else:
             kw.update(tomo_dim_file_format=os.path.join(wd, "$xxx_dim.txt"))
         sh.shuffle(order)
         if case["z_input"] == "scalar":
             kw.update(z_shift=tomos[0]["zshift"] / 10.0)
         elif case["z_input"] == "table":
-            kw.update(z_shift=np.array([[tomos[k]["id"], tomos[k]["zshift"] / 10.0] for k in order]))
+            kw.update(z_shift=W(np.array([[tomos[k]["id"], tomos[k]["zshift"] / 10.0] for k in order]), "z_shift"))
         elif case["z_input"] == "frame":
-            kw.update(z_shift=pd.DataFrame([[tomos[k]["id"], tomos[k]["zshift"] / 10.0] for k in order]))
+            from .. import motlutil
+            zf = motlutil.vary_index(pd.DataFrame([[tomos[k]["id"], tomos[k]["zshift"] / 10.0] for k in order]), case["variant"])
+            if case["variant"] & 1:
+                zf.columns = ["tomo_id", "z_shift"]
+                W(zf, "z_shift")
+            # (a frame with default column labels 0, 1 gets them renamed in place by z_shift_load on the pinned tree -
+            #  reported to the lead, not watched here)
+            kw.update(z_shift=zf)
         elif case["z_input"] == "table_file":
             path = os.path.join(wd, "zshifts.txt")
             with open(path, "w") as fh:
                 for k in order:
                     fh.write("%d %s\n" % (tomos[k]["id"], tm.dec(tomos[k]["zshift"], 10, 1)))
-            kw.update(z_shift=path)
+            kw.update(z_shift=styled(path))
         else:
             kw.update(z_shift_file_format=os.path.join(wd, "$xxx_zshift.txt"))
         star = os.path.join(wd, "batch.star")
         df = wedgeutils.create_wedge_list_sg_batch(tomo_list, px, tlt_fmt, voltage=volt, amp_contrast=amp, cs=cs,
                                                    output_file=star, **kw)
+        why = W.changed()
+        if why:
+            out.append(("ARG", why))
         if what == "batch":
             out.append(("sg", wedge_rows_of_frame(df)))
             out.append(("sg", wedge_rows_of_frame(frame_of_star(star))))
@@ -826,14 +926,20 @@ def exec_session(case, wd):
         tm.write_ctffind4(ctf_path, ctf)
     else:
         ctf_path, ctf_type = os.path.join(wd, "ts_ctf.star"), "gctf"
-        tm.write_gctf(ctf_path, ctf, case["fmt"] == "gctf")
+        tm.write_gctf(ctf_path, ctf, case["fmt"] == "gctf", *gctf_style(case))
     # objects owned by the caller, handed to several calls
-    tilt_arr = np.array(tilts_sorted, dtype=float) / 100.0
-    dose_arr = np.array(case["dosevals"], dtype=float) / 100.0
+    style = case.get("variant", 0) % 16
+    for pth in (mdoc_path, tlt_path, dose_path, ctf_path):
+        tm.restyle(pth, style)
+    fdt = np.float32 if style & 8 else float
+    W = Watch()
+    tilt_arr = W((np.array(tilts_sorted, dtype=float) / 100.0).astype(fdt), "tilt array")
+    dose_arr = W((np.array(case["dosevals"], dtype=float) / 100.0).astype(fdt), "dose array")
     ctf_frame = motlutil.vary_index(pd.DataFrame(
         [[r["u"] / 1e5, r["v"] / 1e5, r["ang"] / 100.0, r["ps"] / 1000.0, (r["u"] / 1e5 + r["v"] / 1e5) / 2.0] for r in ctf],
         columns=["defocus1", "defocus2", "astigmatism", "phase_shift", "defocus_mean"]), case["variant"])
-    dim_arr = np.array(case["dim"], dtype=float)
+    W(ctf_frame, "defocus frame")
+    dim_arr = W(np.array(case["dim"], dtype=float), "dimension array")
     px, volt, amp, cs = C["px"] / 1000.0, C["voltage"] / 10.0, C["amp"] / 1000.0, C["cs"] / 100.0
     tomo = {"id": case["tid"], "tilts": tilts_sorted, "ctf": ctf, "dose": case["dosevals"], "dim": case["dim"],
             "zshift": case["zshift"]}
@@ -903,6 +1009,9 @@ def exec_session(case, wd):
             else:
                 raise core.MachineryError("unknown session call %r" % f)
             obs.append((label, base, res, proj, proj(res)))
+            why = W.changed()
+            if why:
+                return [("ARG " + label, {"why": why})]
     out = []
     for label, base, res, proj, first in obs:
         out.append((label, dict(base, got=first)))
@@ -919,6 +1028,10 @@ def run_sessions(ctx, cases):
         ctx.ran(case)
         if err is not None:
             ctx.fail("call_raises", err, case, {"op": "loader/wedge call sequence", "layer": "L3"})
+            continue
+        if res and res[0][0].startswith("ARG "):
+            ctx.fail("C17_ArgumentsUnchanged", "call %s changed a caller-owned object (%s)" % (res[0][0][4:], res[0][1]["why"]),
+                     case, {"op": "sequence:" + res[0][0].split(":", 1)[1], "layer": "L3"})
             continue
         for label, tr in res:
             tr["id"] = case["id"]
@@ -938,6 +1051,10 @@ def run_tables(ctx, cases, corrupt=None):
                   "sg2em": "wedge_list_sg_to_em"}[case["what"]]
         if err is not None:
             ctx.fail("call_raises", err, case, {"op": opname, "layer": "L3"})
+            continue
+        arg = [g for w, g in res if w == "ARG"]
+        if arg:
+            ctx.fail("C17_ArgumentsUnchanged", "%s changed its argument (%s)" % (opname, arg[0]), case, {"op": opname, "layer": "L3"})
             continue
         for j, (what, got) in enumerate(res):
             if corrupt == "table" and not traces and got:
@@ -962,8 +1079,12 @@ def run(ctx):
         "floats are decimals with at most six fraction digits, 1e-3 <= |v| < 1e6, no exponent form (repr prints them "
         "as the normalised decimal); values whose repr uses an exponent are outside the generated class",
         "tilt angles of one document are pairwise different (sort_values is not stable) and never -0",
-        "free text contains no '=' and is ASCII; titles neither start with '[' nor end with ']'",
-        "index subsets are handed over as lists / arrays"]
+        "free text contains no '=' (it may be non-ASCII, files are UTF-8); titles neither start with '[' nor end with ']'",
+        "index subsets are handed over as lists / arrays (an index may be named twice)",
+        "file names are str; pathlib.Path only where the tree accepts it (Mdoc, STAR / ctffind4 readers, output files) - "
+        "tlt_load / total_dose_load / defocus_load document str and reject Path and tuple; text inputs come with LF or CRLF "
+        "line ends, with or without trailing blank lines; mdoc text is UTF-8 and may be non-ASCII",
+        "caller-owned arrays / lists / DataFrames must be unchanged after every call (argguard) - clause C17_ArgumentsUnchanged"]
     only = getattr(ctx, "only", None)
 
     def want(x):
@@ -1008,7 +1129,7 @@ def run(ctx):
     if want("l3"):
         total = ctx.pick(16, 250)
         nmax = 80
-        cases = [gen_mdoc_case(ctx.rng, i + 1, nmax) for i in range(total)]
+        cases = [gen_mdoc_case(ctx.rng, i + 1, nmax, nforce=(i + 1) if i < 12 else 0) for i in range(total)]
         corrupt = os.environ.get("VERIF_C17_CORRUPT") or None
         for b in range(0, total, 100):
             run_random_mdocs(ctx, cases[b:b + 100], corrupt=corrupt if b == 0 else None)
